@@ -4,8 +4,82 @@
 
 package patch
 
+// the value member each action carries (C14); "" for anything that is not one of the eight actions
+//@ spec func valueKey(a Action) Key =
+//@   ite(a == AddPublicKeys, PublicKeys, ite(a == RemovePublicKeys, IdsKey, ite(a == AddServiceEndpoints, ServicesKey,
+//@   ite(a == RemoveServiceEndpoints, IdsKey, ite(a == JSONPatch, PatchesKey, ite(a == Replace, DocumentKey,
+//@   ite(a == AddAlsoKnownAs, UrisKey, ite(a == RemoveAlsoKnownAs, UrisKey, Key("")))))))))
+//@ spec func supported(a Action) bool = valueKey(a) != Key("")
+
+// the action -> value member table is what valueKey says: filled by the package initialiser, never written afterwards
+//@ global invariant [actionConfig] actionConfig != nil && (forall a Action :: has(actionConfig, a) <==> supported(a)) &&
+//@        (forall a Action :: supported(a) ==> actionConfig[a] == valueKey(a))
+
+// the action of a patch: the "action" member, as a string or as an Action, when it is one of the eight
+//@ spec func actionOf(p Patch) Action =
+//@   ite(typeis(p[ActionKey], Action), p[ActionKey].(Action), ite(typeis(p[ActionKey], string), Action(p[ActionKey].(string)), Action("")))
+
 //@ func (p Patch) GetAction() (action, err)
 //@   pure
-//
+//@   ensures [iff] (err == nil) == (has(p, ActionKey) && (typeis(p[ActionKey], Action) || typeis(p[ActionKey], string)) && supported(actionOf(p)))
+//@   ensures [value] err == nil ==> action == actionOf(p)
+//@   ensures [atomic] err != nil ==> action == Action("")
+
 //@ func (p Patch) GetValue() (value, err)
 //@   pure
+//@   ensures [iff] (err == nil) == (p.GetAction().1 == nil && has(p, valueKey(p.GetAction().0)))
+//@   ensures [value] err == nil ==> value == p[valueKey(p.GetAction().0)]
+
+// C14: bytes are accepted as a patch only when they carry a supported action and that action's value member
+//@ func FromBytes(data) (ret, err)
+//@   modifies nothing
+//@   ensures [atomic] (err != nil ==> ret == nil) && (err == nil ==> ret != nil)
+//@   ensures [accessors] err == nil ==> ret.GetAction().1 == nil && ret.GetValue().1 == nil
+
+// C14: a document that carries an id is refused
+//@ func validateDocument(doc) (err)
+//@   modifies nothing
+//@   ensures [iff] (err == nil) == (document.strEntry(doc, "id") == "")
+
+// C14: a replace document may hold the key list and the service list and nothing else
+//@ func validateReplaceDocument(doc) (err)
+//@   modifies nothing
+//@   ensures [iff] (err == nil) == (forall k string :: has(doc, k) ==> k == "services" || k == "publicKeys")
+//@   loop 0 invariant [seen] forall k string :: visited(k) ==> k == "services" || k == "publicKeys"
+
+//@ func contains(keys, key) (r)
+//@   pure
+//@   ensures [iff] r == (exists i int :: 0 <= i && i < len(keys) && keys[i] == key)
+//@   loop 0 invariant [none] forall i int :: 0 <= i && i < $k ==> keys[i] != key
+
+// C14: the constructors build a patch that names their action and carries that action's value member
+//@ func NewReplacePatch(doc) (ret, err)
+//@   modifies nothing
+//@   ensures [shape] err == nil ==> ret != nil && actionOf(ret) == Replace && has(ret, DocumentKey) && ret.GetAction().1 == nil && ret.GetValue().1 == nil
+//@ func NewJSONPatch(patches) (ret, err)
+//@   modifies nothing
+//@   ensures [shape] err == nil ==> ret != nil && actionOf(ret) == JSONPatch && has(ret, PatchesKey) && ret.GetAction().1 == nil && ret.GetValue().1 == nil
+//@ func NewAddPublicKeysPatch(publicKeys) (ret, err)
+//@   modifies nothing
+//@   ensures [shape] err == nil ==> ret != nil && actionOf(ret) == AddPublicKeys && has(ret, PublicKeys) && ret.GetAction().1 == nil && ret.GetValue().1 == nil
+//@ func NewRemovePublicKeysPatch(publicKeyIds) (ret, err)
+//@   modifies nothing
+//@   ensures [shape] err == nil ==> ret != nil && actionOf(ret) == RemovePublicKeys && has(ret, IdsKey) && ret.GetAction().1 == nil && ret.GetValue().1 == nil
+//@ func NewAddServiceEndpointsPatch(serviceEndpoints) (ret, err)
+//@   modifies nothing
+//@   ensures [shape] err == nil ==> ret != nil && actionOf(ret) == AddServiceEndpoints && has(ret, ServicesKey) && ret.GetAction().1 == nil && ret.GetValue().1 == nil
+//@ func NewRemoveServiceEndpointsPatch(serviceEndpointIds) (ret, err)
+//@   modifies nothing
+//@   ensures [shape] err == nil ==> ret != nil && actionOf(ret) == RemoveServiceEndpoints && has(ret, IdsKey) && ret.GetAction().1 == nil && ret.GetValue().1 == nil
+//@ func NewAddAlsoKnownAs(uris) (ret, err)
+//@   modifies nothing
+//@   ensures [shape] err == nil ==> ret != nil && actionOf(ret) == AddAlsoKnownAs && has(ret, UrisKey) && ret.GetAction().1 == nil && ret.GetValue().1 == nil
+//@ func NewRemoveAlsoKnownAs(uris) (ret, err)
+//@   modifies nothing
+//@   ensures [shape] err == nil ==> ret != nil && actionOf(ret) == RemoveAlsoKnownAs && has(ret, UrisKey) && ret.GetAction().1 == nil && ret.GetValue().1 == nil
+
+// C14: a document that carries an id is not turned into patches
+//@ func PatchesFromDocument(doc) (ret, err)
+//@   modifies nothing
+//@   ensures [id-refused] err == nil ==> jsonDecodeErr(doc, document.Document) == nil &&
+//@        !(jsonMapHas(doc, "id", document.Document) && typeis(jsonMapGet(doc, "id", document.Document), string) && jsonMapGet(doc, "id", document.Document).(string) != "")
